@@ -5,6 +5,7 @@ package core
 import (
 	"context"
 	"errors"
+	"strings"
 
 	"github.com/Comcast/sheens/match"
 	"github.com/Comcast/sheens/zzverif/verif"
@@ -50,6 +51,24 @@ func stubFailed(b *builtSpec) bool {
 	return false
 }
 
+// c07OnlyStubFailures: the walk met no failure other than a failing stub (no unknown node, no branch that
+// matched several ways, no action node without a matching branch).
+func c07OnlyStubFailures(b *builtSpec, w *Walked) bool {
+	for _, s := range w.Strides {
+		if s.From != nil {
+			if _, known := b.spec.Nodes[s.From.NodeName]; !known {
+				return false
+			}
+		}
+		if s.To != nil && s.To.NodeName == "error" {
+			if e, is := s.To.Bs["error"].(string); is && !strings.HasPrefix(e, "stub ") && e != "old failure" {
+				return false
+			}
+		}
+	}
+	return true
+}
+
 // VerifC07Walk: Walk/Step are total: no panic escapes, failures surface as an error, an error state
 // (error / lastNode / lastBindings) or the designated action-error node (actionError).
 func VerifC07Walk() {
@@ -57,19 +76,24 @@ func VerifC07Walk() {
 	o, msgOpts := c07Opts()
 	b := buildSpec(o)
 	st := &State{NodeName: "n0"}
-	switch verif.Choose("bindings", 3) {
+	switch verif.Choose("bindings", 4) {
 	case 0:
 		st.Bs = nil // absent bindings
 	case 1:
 		st.Bs = match.Bindings(verif.AnyMap("bs", c07Bindings(o)))
+	case 3:
+		// a machine that failed before and was sent back to work by its error node, keeping its bindings
+		st.Bs = match.Bindings{"error": "old failure", "lastNode": "n9", "lastBindings": map[string]interface{}{"z": 1.0}, "k": "v"}
 	default:
 		st.Bs = match.Bindings{"p!": 1.0, "k": "v"}
 	}
-	switch verif.Choose("node", 3) {
-	case 1:
-		st.NodeName = "nowhere"
-	case 2:
-		st.NodeName = "error"
+	if _, failedBefore := st.Bs["lastNode"]; !failedBefore {
+		switch verif.Choose("node", 3) {
+		case 1:
+			st.NodeName = "nowhere"
+		case 2:
+			st.NodeName = "error"
+		}
 	}
 	var msgs []interface{}
 	nm := verif.Choose("nmsgs", 2+verif.Tier())
@@ -123,6 +147,19 @@ func VerifC07Walk() {
 				_, hasLB := s.To.Bs["lastBindings"]
 				if hasE && isStr && hasLN && hasLB {
 					surfaced = true
+				}
+				if s.From != nil && s.From.NodeName != "error" {
+					// the error state describes THIS failure: the node it occurred at and the bindings at that point
+					verif.Assert("error-state-records-the-failing-node", verif.JSONEqual(s.To.Bs["lastNode"], s.From.NodeName))
+					was := map[string]interface{}(s.From.Bs)
+					if was == nil {
+						was = map[string]interface{}{}
+					}
+					verif.Assert("error-state-records-the-bindings-at-that-point", verif.JSONEqual(s.To.Bs["lastBindings"], was))
+					if txt, is := e.(string); is {
+						// every failure of this harness comes from a stub, whose texts start with "stub "
+						verif.Assert("error-state-carries-this-failure's-text", strings.HasPrefix(txt, "stub ") || !c07OnlyStubFailures(b, w))
+					}
 				}
 			}
 		}
